@@ -9,7 +9,7 @@ Decided clauses:
      value only inside the stated range and None outside it; inside the range
      they return a value (cowat: unless its own discriminant test ZP < 0 fires,
      whose feasibility needs the numerical saturation curve - not claimed).
- (b) t2thermo.region and IAPWS97.region agree for t < 350 and t > 374.15 degC
+ (b) t2thermo.region and IAPWS97.region agree for t <= 350 and t > 374.15 degC
      at states farther than DELTA from both formulations' boundary curves,
      assuming |sat67(t) - sat97(t)| < DELTA; |b23p67 - b23p97| < DELTA is proved.
  (c) separated_steam_fraction lies in [0, 1] and does not decrease with
@@ -193,7 +193,7 @@ def task_bounds(fn, ms=600):
             far = [z3.Or(p.e - cv > fr(3 * DELTA), cv - p.e > fr(3 * DELTA)) for cv in curves.values()] if p is not None else []
             # (the curves are opaque to the solver: prefer states whose side of the curve does not depend on its value)
             found = False
-            if p is not None and curves:
+            if p is not None and fn in ('cowat', 'supst'):     # also when this path has no curve of the oracle's (t outside its band)
                 for extreme in ([p.e == fr(1.0e8)] if fn == 'cowat' else [p.e == 1]) + [z3.BoolVal(True)]:
                     r2, m2 = c.solve(z3.And(neg, extreme, *far), full=True)
                     if r2 == 'sat': m = m2; found = True; break
@@ -229,7 +229,7 @@ def task_region_agree():
     def h(c):
         t = c.real('t', -50.0, 900.0); p = c.real('p', -1.0e6, 2.0e8)
         te, pe = t.e, p.e
-        c.add(z3.Or(te < 350, te > fr(TC67)))
+        c.add(z3.Or(te <= 350, te > fr(TC67)))     # the isotherm t = 350 itself is inside the claim (cowat's range includes it)
         d = fr(DELTA)
         far = lambda cv, k=1: z3.Or(pe - cv > k * d, cv - pe > k * d)
         pre, pre3 = [], []
@@ -375,7 +375,7 @@ def run(tier, seed, rep):
     _prescreen(results, rep)
     rep.add_results(results)
     rep.bounds += ['(a) t in [-50, 900] degC, p in [-1 MPa, 200 MPa] (both sides of every range limit), bounds=True',
-                   '(b) same box, t < 350 or t > 374.15, |p - curve| > DELTA = %g Pa for the sat / b23p curves of both formulations' % DELTA,
+                   '(b) same box, t <= 350 (closed: the boundary isotherm is included) or t > 374.15, |p - curve| > DELTA = %g Pa for the sat / b23p curves of both formulations' % DELTA,
                    '(c) separator pressures in [0.1, 5] MPa, enthalpies h in [0, 3.5 MJ/kg], saturation enthalpies in [0, 10 MJ/kg], one and two stages']
     rep.outside += ['numerical agreement of densities, energies and saturation pressures between IFC-67 and IAPWS-97 (the headline clause)',
                     'single-potential identity of the IFC-67 forms (exp, Z**(5/17))',
